@@ -4,9 +4,17 @@
 package main
 
 import (
+	"bytes"
+	"encoding/json"
 	"flag"
 	"fmt"
+	"go/ast"
+	"go/printer"
+	"go/token"
+	"go/types"
 	"os"
+	"path/filepath"
+	"reflect"
 	"runtime/debug"
 	"sort"
 	"strconv"
@@ -43,7 +51,73 @@ func main() {
 	verif := flag.String("verif", "/verif", "verification directory (evidence, oracles, known findings)")
 	list := flag.Bool("list", false, "list implemented properties")
 	mutants := flag.String("mutant", "", "apply the named mutant (file under mutants/) as an in-memory overlay")
+	dump := flag.String("dump-normalised", "", "development aid: write the normalised source of every rewritten package over the files of this copy of the tree (same relative paths), then exit")
+	genKnown := flag.Bool("gen-known", false, "maintenance: print the declared functions, methods and named types of the tree as JSON (oracles/known_functions.json)")
 	flag.Parse()
+	if *genKnown {
+		os.Setenv("VERIF_NOINLINE", "1")
+		p, err := LoadProg(*repo, nil)
+		if err != nil {
+			fmt.Println(err)
+			os.Exit(2)
+		}
+		out := knownFuncs{Functions: map[string][]string{}, Types: map[string][]string{}}
+		out.Provenance = "functions, methods and named types declared in non-test code of the pinned tree (after the fix commits); any other unexported function is treated as a newly extracted helper and inlined before analysis, and local variables of any other struct type are split into one variable per field (normalize.go).  Regenerate with: ntripcheck -gen-known -repo /repo"
+		for _, pk := range p.Pkgs {
+			for _, f := range pk.Syntax {
+				for _, d := range f.Decls {
+					switch x := d.(type) {
+					case *ast.FuncDecl:
+						if obj, _ := pk.TypesInfo.Defs[x.Name].(*types.Func); obj != nil {
+							out.Functions[rel(pk.PkgPath)] = append(out.Functions[rel(pk.PkgPath)], funcKey(obj))
+						}
+					case *ast.GenDecl:
+						for _, sp := range x.Specs {
+							if ts, ok := sp.(*ast.TypeSpec); ok {
+								out.Types[rel(pk.PkgPath)] = append(out.Types[rel(pk.PkgPath)], ts.Name.Name)
+							}
+						}
+					}
+				}
+			}
+			sort.Strings(out.Functions[rel(pk.PkgPath)])
+			sort.Strings(out.Types[rel(pk.PkgPath)])
+		}
+		b, _ := json.MarshalIndent(out, "", " ")
+		fmt.Println(string(b))
+		return
+	}
+	if *dump != "" {
+		p, err := LoadProg(*repo, nil)
+		if err != nil {
+			fmt.Println(err)
+			os.Exit(2)
+		}
+		n := 0
+		for _, f := range p.Normalised {
+			name := p.Fset.Position(f.Package).Filename
+			relp, err := filepath.Rel(*repo, name)
+			if err != nil || strings.HasPrefix(relp, "..") {
+				continue
+			}
+			f.Comments = nil
+			var buf bytes.Buffer
+			if err := printer.Fprint(&buf, token.NewFileSet(), stripPos(f)); err != nil {
+				fmt.Println("print:", err)
+				os.Exit(2)
+			}
+			if err := os.WriteFile(filepath.Join(*dump, relp), buf.Bytes(), 0o644); err != nil {
+				fmt.Println(err)
+				os.Exit(2)
+			}
+			n++
+		}
+		fmt.Printf("wrote %d normalised files\n", n)
+		for _, l := range p.NormalizeLog {
+			fmt.Println("  " + l)
+		}
+		return
+	}
 	if *list {
 		var ids []string
 		for k := range checks {
@@ -128,4 +202,46 @@ func run(property, tier, repo, verif string, seed int, overlay map[string][]byte
 		thorough(c)
 	}
 	return c.Finish(seed)
+}
+
+// stripPos makes every valid position of the tree the same dummy position (in
+// place), so that the printer lays the tree out from its structure alone.
+func stripPos(f *ast.File) *ast.File {
+	posType := reflect.TypeOf(token.NoPos)
+	seen := map[uintptr]bool{}
+	var walk func(v reflect.Value)
+	walk = func(v reflect.Value) {
+		switch v.Kind() {
+		case reflect.Ptr:
+			if v.IsNil() || seen[v.Pointer()] {
+				return
+			}
+			seen[v.Pointer()] = true
+			walk(v.Elem())
+		case reflect.Interface:
+			if !v.IsNil() {
+				walk(v.Elem())
+			}
+		case reflect.Slice:
+			for i := 0; i < v.Len(); i++ {
+				walk(v.Index(i))
+			}
+		case reflect.Struct:
+			for i := 0; i < v.NumField(); i++ {
+				fv := v.Field(i)
+				if fv.Type() == posType {
+					if fv.CanSet() && fv.Int() != 0 {
+						fv.SetInt(1)
+					}
+					continue
+				}
+				if fv.Type() == objType || fv.Type() == scopeType {
+					continue
+				}
+				walk(fv)
+			}
+		}
+	}
+	walk(reflect.ValueOf(f))
+	return f
 }
